@@ -1,5 +1,6 @@
 import Regatta.Driver.Proto
 import Regatta.Model.Fsm
+import Regatta.Model.Snapshot
 /-
   fsm mode of the driver (DESIGN.md Appendix C): parses the operation lines written by the Go
   harness, runs `Regatta.Fsm`, prints answers in the harness's canonical form.
@@ -157,13 +158,26 @@ def hashDb (db : Db) : UInt64 :=
   db.foldl (fun h p => p.2.foldl fnv64Step (p.1.foldl fnv64Step h)) fnv64Init
 
 structure St where
-  dbs : List (Nat × Db) := []
-  /-- parked lazy sequences: slot ↦ (instance, request); the Pebble iterator is created at the
-  first pull, so the pairs are those of the instance's store at consumption time -/
-  parked : List (Nat × Nat × RangeReq × Option RangeResp) := []
+  /-- the replicas: configured format (as far as the driver is told), live handle, stores -/
+  reps : List (Nat × Snap.Rep) := []
+  /-- parked lazy sequences: slot ↦ (instance, lazy read, eager answer of a single-key request,
+  the instance's store when the read was obtained) -/
+  parked : List (Nat × Nat × Snap.LazyRead × Option RangeResp × Db) := []
+  /-- pinned snapshot values (PrepareSnapshot) -/
+  pins : List (Nat × Db) := []
 
-def St.get (st : St) (i : Nat) : Option Db := (st.dbs.find? (·.1 == i)).map (·.2)
-def St.set (st : St) (i : Nat) (db : Db) : St := { st with dbs := (i, db) :: st.dbs.filter (·.1 != i) }
+def St.rep (st : St) (i : Nat) : Option Snap.Rep := (st.reps.find? (·.1 == i)).map (·.2)
+def St.putRep (st : St) (i : Nat) (r : Snap.Rep) : St := { st with reps := (i, r) :: st.reps.filter (·.1 != i) }
+def St.get (st : St) (i : Nat) : Option Db := (st.rep i).map (·.db)
+def St.set (st : St) (i : Nat) (db : Db) : St := st.putRep i (((st.rep i).getD {}).setDb db)
+
+def fmtOf : String → Option Snap.Fmt
+  | "0" => some .snapshot
+  | "1" => some .checkpoint
+  | _ => none
+
+def chunksStr (chunks : List RangeResp) : String :=
+  s!"ok {chunks.length}" ++ String.join (chunks.map (fun c => " " ++ rrStr c))
 
 def step (st : St) (toks : List String) : St × String :=
   let bad := (st, "bad-op")
@@ -173,21 +187,75 @@ def step (st : St) (toks : List String) : St × String :=
     match i.toNat?, slot.toNat?, pRange rest with
     | some i, some slot, some (r, []) =>
       -- `iteratorLookup`: a single-key request is answered eagerly, a range lazily
-      let eager := if r.rangeEnd.isSome then none else (st.get i).map (fun db => singleLookup db r)
-      ({ st with parked := (slot, i, r, eager) :: st.parked }, "ok")
+      match st.rep i with
+      | some rep =>
+        let eager := if r.rangeEnd.isSome then none else some (singleLookup rep.db r)
+        ({ st with parked := (slot, i, Snap.lookupIter rep r, eager, rep.db) :: st.parked }, "ok")
+      | none => bad
     | _, _, _ => bad
   | ["cons", slot] =>
     match slot.toNat?.bind (fun s => st.parked.find? (·.1 == s)) with
-    | some (slot, i, r, eager) => match st.get i with
-      | some db =>
+    | some (slot, i, lz, eager, _) => match st.rep i with
+      | some rep =>
         let st := { st with parked := st.parked.filter (·.1 != slot) }
-        match (match eager with | some resp => (Except.ok [resp] : Except Err (List RangeResp)) | none => iteratorLookup db r) with
-        | .ok chunks => (st, s!"ok {chunks.length}" ++ String.join (chunks.map (fun c => " " ++ rrStr c)))
-        | .error e => (st, errStr e)
+        match eager with
+        | some resp => (st, chunksStr [resp])
+        | none => match Snap.consume rep lz with
+          | none => (st, "panic closed")
+          | some (.ok chunks) => (st, chunksStr chunks)
+          | some (.error e) => (st, errStr e)
       | none => bad
     | none => bad
+  | ["kf", "K1", "cons", slot] =>
+    -- a lazy read consumed after an install: the code panics on the closed store; the property
+    -- admits the old state, the new state or a clean error
+    match slot.toNat?.bind (fun s => st.parked.find? (·.1 == s)) with
+    | some (slot, i, lz, eager, old) => match st.rep i with
+      | some rep =>
+        let st := { st with parked := st.parked.filter (·.1 != slot) }
+        let asCode := match eager with
+          | some resp => chunksStr [resp]
+          | none => match Snap.consume rep lz with
+            | none => "panic closed"
+            | some (.ok chunks) => chunksStr chunks
+            | some (.error e) => errStr e
+        let alt (db : Db) : String := match iteratorLookup db lz.req with
+          | .ok chunks => chunksStr chunks
+          | .error e => errStr e
+        (st, s!"{asCode} || {alt rep.db} || {alt old} || err other")
+      | none => bad
+    | none => bad
+  | ["swap", a, b] =>
+    match a.toNat?, b.toNat? with
+    | some a, some b => match st.rep a, st.rep b with
+      | some ra, some rb => ((st.putRep a rb).putRep b ra, "ok")
+      | _, _ => bad
+    | _, _ => bad
+  | ["pin", i, slot] =>
+    match i.toNat?.bind st.rep, slot.toNat? with
+    | some rep, some slot => ({ st with pins := (slot, Snap.prepare rep) :: st.pins.filter (·.1 != slot) }, "ok")
+    | _, _ => bad
+  | ["save", slot, fmt, stopped] =>
+    -- the stream's first 8 bytes, or that the save was stopped
+    match slot.toNat?.bind (fun s => st.pins.find? (·.1 == s)), fmtOf fmt with
+    | some (_, pinned), some f =>
+      match Snap.save { fmt := f } pinned (stopped == "1") with
+      | some s => (st, s!"ok {hx s.hdr}")
+      | none => (st, "stopped")
+    | _, _ => bad
+  | ["install", slot, fmt, b, outcome] =>
+    -- RecoverFromSnapshot of the stream saved from `slot` by a replica of format `fmt`; the harness
+    -- reports whether its stop signal was seen (`stopped`) or came too late (`done`)
+    match slot.toNat?.bind (fun s => st.pins.find? (·.1 == s)), fmtOf fmt, b.toNat? with
+    | some (_, pinned), some f, some b =>
+      match st.rep b, Snap.save { fmt := f } pinned false with
+      | some rep, some stream =>
+        let (rep', out) := Snap.recover rep stream (outcome == "stopped")
+        (st.putRep b rep', match out with | .done => "done" | .stopped => "stopped" | .panic => "panic other")
+      | _, _ => bad
+    | _, _, _ => bad
   | ["new", i] => match i.toNat? with
-    | some i => (st.set i [], "ok")
+    | some i => (st.putRep i {}, "ok")
     | none => bad
   | ["copy", a, b] => match a.toNat?, b.toNat? with
     | some a, some b => match st.get a with
